@@ -28,79 +28,89 @@ pub fn run(tier: Tier, replay_file: Option<&str>) -> i32 {
     let pols = policies(tier);
     let st = Style::default();
     let validator = cedar_policy::Validator::new(schema.clone());
-    // per policy: accepted at level n?  (None = not even strictly valid)
-    let verdicts: Vec<Option<Vec<bool>>> = pols
-        .par_iter()
-        .map(|lp| {
-            let mut l = Local::default();
-            let text = lp.pol.text(&st);
-            let p = match cedar_policy::Policy::parse(Some(cedar_policy::PolicyId::new(&lp.pol.id)), &text) {
-                Ok(p) => p,
-                Err(e) => {
-                    ctx.violation("gen:text-rejected", format!("{text}: {e}"), json!({"text": text}));
+    // per mode and policy: accepted at level n?  (None = not valid in that mode at all)
+    let modes = [(cedar_policy::ValidationMode::Strict, "strict"), (cedar_policy::ValidationMode::Permissive, "permissive")];
+    let mut all_verdicts: Vec<Vec<Option<Vec<bool>>>> = Vec::new();
+    // policy sets accepted at level n, per mode
+    let mut all_psets: Vec<Vec<(cedar_policy::PolicySet, Vec<usize>)>> = Vec::new();
+    for (mode, mode_name) in modes {
+        let verdicts: Vec<Option<Vec<bool>>> = pols
+            .par_iter()
+            .map(|lp| {
+                let mut l = Local::default();
+                let text = lp.pol.text(&st);
+                let p = match cedar_policy::Policy::parse(Some(cedar_policy::PolicyId::new(&lp.pol.id)), &text) {
+                    Ok(p) => p,
+                    Err(e) => {
+                        ctx.violation("gen:text-rejected", format!("{text}: {e}"), json!({"text": text}));
+                        return None;
+                    }
+                };
+                let set = cedar_policy::PolicySet::from_policies([p]).ok()?;
+                let plain = validator.validate(&set, mode);
+                l.transitions += 1;
+                if plain.validation_errors().next().is_some() {
+                    // the generator aims at valid policies; an invalid one is simply not a case
+                    l.case(hash_of(&(&lp.pol, mode_name)), &format!("not-{mode_name}-valid"), false);
+                    ctx.merge(l);
                     return None;
                 }
-            };
-            let set = cedar_policy::PolicySet::from_policies([p]).ok()?;
-            let plain = validator.validate(&set, cedar_policy::ValidationMode::Strict);
-            l.transitions += 1;
-            if plain.validation_errors().next().is_some() {
-                // the generator aims at strictly valid policies; an invalid one is simply not a case
-                l.case(hash_of(&lp.pol), "not-strictly-valid", false);
-                ctx.merge(l);
-                return None;
-            }
-            let mut acc = Vec::new();
-            for n in 0..=MAX_LEVEL + 1 {
-                let r = validator.validate_with_level(&set, cedar_policy::ValidationMode::Strict, n as u32);
-                l.transitions += 1;
-                acc.push(r.validation_errors().next().is_none());
-            }
-            // raising n never turns acceptance into rejection
-            for n in 0..=MAX_LEVEL {
-                if acc[n] && !acc[n + 1] {
-                    ctx.violation("not-monotone-in-level", format!("accepted at level {n} but rejected at level {}: {text}", n + 1), json!({"text": text, "level": n}));
+                let mut acc = Vec::new();
+                for n in 0..=MAX_LEVEL + 1 {
+                    let r = validator.validate_with_level(&set, mode, n as u32);
+                    l.transitions += 1;
+                    acc.push(r.validation_errors().next().is_none());
                 }
-            }
-            let min = acc.iter().position(|x| *x);
-            l.case(hash_of(&lp.pol), &format!("min-level-{}", min.map(|m| m.to_string()).unwrap_or("none".into())), true);
-            ctx.merge(l);
-            Some(acc)
-        })
-        .collect();
-    let valid_count = verdicts.iter().filter(|v| v.is_some()).count();
-    ctx.set_info("policies", json!(pols.len()));
-    ctx.set_info("strictly_valid", json!(valid_count));
-    let mut hist: BTreeMap<String, usize> = BTreeMap::new();
-    for v in verdicts.iter().flatten() {
-        *hist.entry(format!("{:?}", v.iter().position(|x| *x))).or_insert(0) += 1;
-    }
-    ctx.set_info("min_level_histogram", json!(hist));
-    if valid_count * 2 < pols.len() {
-        eprintln!("MACHINERY ERROR: fewer than half of the generated level policies are strictly valid ({valid_count}/{})", pols.len());
-        return 2;
-    }
-    // policy set accepted at level n
-    let mut psets: Vec<(cedar_policy::PolicySet, Vec<usize>)> = Vec::new();
-    for n in 0..=MAX_LEVEL {
-        let mut set = cedar_policy::PolicySet::new();
-        let mut idx = Vec::new();
-        for (i, lp) in pols.iter().enumerate() {
-            if let Some(v) = &verdicts[i] {
-                if v[n] {
-                    if let Ok(p) = cedar_policy::Policy::parse(Some(cedar_policy::PolicyId::new(&lp.pol.id)), lp.pol.text(&st)) {
-                        let _ = set.add(p);
-                        idx.push(i);
+                // raising n never turns acceptance into rejection
+                for n in 0..=MAX_LEVEL {
+                    if acc[n] && !acc[n + 1] {
+                        ctx.violation(format!("not-monotone-in-level:{mode_name}"), format!("accepted at level {n} but rejected at level {} ({mode_name}): {text}", n + 1), json!({"text": text, "level": n, "mode": mode_name}));
+                    }
+                }
+                let min = acc.iter().position(|x| *x);
+                l.case(hash_of(&(&lp.pol, mode_name)), &format!("min-level-{}", min.map(|m| m.to_string()).unwrap_or("none".into())), true);
+                ctx.merge(l);
+                Some(acc)
+            })
+            .collect();
+        let valid_count = verdicts.iter().filter(|v| v.is_some()).count();
+        ctx.set_info("policies", json!(pols.len()));
+        ctx.set_info(&format!("{mode_name}_valid"), json!(valid_count));
+        let mut hist: BTreeMap<String, usize> = BTreeMap::new();
+        for v in verdicts.iter().flatten() {
+            *hist.entry(format!("{:?}", v.iter().position(|x| *x))).or_insert(0) += 1;
+        }
+        ctx.set_info(&format!("min_level_histogram_{mode_name}"), json!(hist));
+        if valid_count * 2 < pols.len() {
+            eprintln!("MACHINERY ERROR: fewer than half of the generated level policies are {mode_name}-valid ({valid_count}/{})", pols.len());
+            return 2;
+        }
+        let mut psets: Vec<(cedar_policy::PolicySet, Vec<usize>)> = Vec::new();
+        for n in 0..=MAX_LEVEL {
+            let mut set = cedar_policy::PolicySet::new();
+            let mut idx = Vec::new();
+            for (i, lp) in pols.iter().enumerate() {
+                if let Some(v) = &verdicts[i] {
+                    // a policy already in the strict set of level n need not be authorized again in
+                    // the permissive set (per-policy outcomes do not depend on the rest of the set)
+                    let dup = all_verdicts.first().map(|sv: &Vec<Option<Vec<bool>>>| sv[i].as_ref().map(|x| x[n]).unwrap_or(false)).unwrap_or(false);
+                    if v[n] && !dup {
+                        if let Ok(p) = cedar_policy::Policy::parse(Some(cedar_policy::PolicyId::new(&lp.pol.id)), lp.pol.text(&st)) {
+                            let _ = set.add(p);
+                            idx.push(i);
+                        }
                     }
                 }
             }
+            // the whole set must also be accepted at level n
+            let r = validator.validate_with_level(&set, mode, n as u32);
+            if r.validation_errors().next().is_some() {
+                ctx.violation(format!("set-vs-single-verdict:{mode_name}"), format!("policies accepted one by one at level {n} ({mode_name}) are rejected as a set"), json!({"level": n, "mode": mode_name}));
+            }
+            psets.push((set, idx));
         }
-        // the whole set must also be accepted at level n
-        let r = validator.validate_with_level(&set, cedar_policy::ValidationMode::Strict, n as u32);
-        if r.validation_errors().next().is_some() {
-            ctx.violation("set-vs-single-verdict", format!("policies accepted one by one at level {n} are rejected as a set"), json!({"level": n}));
-        }
-        psets.push((set, idx));
+        all_verdicts.push(verdicts);
+        all_psets.push(psets);
     }
     // environments
     let stores = l_stores(tier);
@@ -116,21 +126,26 @@ pub fn run(tier: Tier, replay_file: Option<&str>) -> i32 {
             ctx.violation("precondition:store-rejected", format!("conformant store rejected: {e}"), json!({"store": serde_json::to_value(s).unwrap()}));
             return;
         }
+        // the full store holds the action entities of the schema too
+        let s = &with_actions(s, &sch);
         let full = c_entities(s);
         for (ri, r) in reqs.iter().enumerate() {
             let Ok(creq) = c_request_schema(r, &schema) else {
                 ctx.violation("precondition:request-rejected", format!("{r:?}"), json!({}));
                 continue;
             };
-            for n in 0..=MAX_LEVEL {
-                let (pset, idx) = &psets[n];
+            for (mi, n) in (0..modes.len()).flat_map(|m| (0..=MAX_LEVEL).map(move |n| (m, n))) {
+                let mode_name = modes[mi].1;
+                let verdicts = &all_verdicts[mi];
+                let (pset, idx) = &all_psets[mi][n];
                 let slice = level_slice(s, r, n);
                 let csl = c_entities(&slice);
                 let a = abs_response(&auth.is_authorized(&creq, pset, &full));
                 let b_ = abs_response(&auth.is_authorized(&creq, pset, &csl));
                 l.transitions += 2;
                 let differs = slice.ents.len() != s.ents.len();
-                l.case(hash_of(&(si, ri, n)), if differs { "slice-smaller-than-store" } else { "slice-is-whole-store" }, differs);
+                let _ = mode_name;
+                l.case(hash_of(&(si, ri, n, mi)), if differs { "slice-smaller-than-store" } else { "slice-is-whole-store" }, differs);
                 // teeth of the oracle (informational): policies whose minimal accepted level is n
                 // and whose answer DOES change on the level-(n-1) slice somewhere
                 if n >= 1 {
@@ -158,8 +173,8 @@ pub fn run(tier: Tier, replay_file: Option<&str>) -> i32 {
                     let shape = lp.map(|p| p.shape.clone()).unwrap_or_default();
                     let text = lp.map(|p| p.pol.text(&st)).unwrap_or_default();
                     ctx.violation(
-                        format!("slice-insufficient:level{n}:{}", shape.split(':').skip(1).collect::<Vec<_>>().join(":")),
-                        format!("policy accepted at level {n} answers differently on the level-{n} slice: `{text}` request {r:?}; full: {a:?} slice: {b_:?} (decision {:?} vs {:?})", a.decision, b_.decision),
+                        format!("slice-insufficient:{mode_name}:level{n}:{}", shape.split(':').skip(1).collect::<Vec<_>>().join(":")),
+                        format!("policy accepted at level {n} ({mode_name}) answers differently on the level-{n} slice: `{text}` request {r:?}; full: {a:?} slice: {b_:?} (decision {:?} vs {:?})", a.decision, b_.decision),
                         json!({"level": n, "policy": text, "request": format!("{r:?}"), "store": serde_json::to_value(s).unwrap(), "slice": serde_json::to_value(&slice).unwrap(), "changed_policies": changed}),
                     );
                 }
@@ -172,7 +187,7 @@ pub fn run(tier: Tier, replay_file: Option<&str>) -> i32 {
         ctx.sample(json!({"policy": lp.pol.text(&st), "shape": lp.shape}));
     }
     ctx.finish(
-        "dereference-chain policies (every entity-valued access path of <= 2/3 steps from principal/resource/context roots through attributes, nested records, optional attributes and tags x terminal observation {attr, has, hasTag, in, in-set, ==, is, in-right} x wrappers {record literal, nested record literal, if-branches, ||-right, set}) validated at levels 0..5; for every level n, the set of policies accepted at n is authorized on every conformant (store, request) over the full store and over the level-n slice built from the definition; case = policy (verdict vector) and (store, request, level); non-trivial = the slice is a proper subset of the store",
+        "dereference-chain policies (every entity-valued access path of <= 2/3 steps from principal/resource/context roots through attributes, nested records, optional attributes and tags x terminal observation {attr, has, hasTag, in, in-set, ==, is, in-right} x wrappers {record literal, nested record literal, if-branches, ||-right, set}) validated at levels 0..5 in strict and in permissive mode (+ shapes only permissive validation accepts, + an action hierarchy with literals of the own / another action); for every mode and level n, the set of policies accepted at n is authorized on every conformant (store, request) over the full store and over the level-n slice built from the definition; case = policy (verdict vector) and (store, request, level); non-trivial = the slice is a proper subset of the store",
         json!({"max_level": MAX_LEVEL, "tier": tier.name()}),
         &["slice definition lvl.rs::level_slice (RFC-76 reading: level 0 loads nothing)", "stores are used only if schema-based validation accepts them"],
         true,
